@@ -26,10 +26,12 @@ MAX_SIDE = 28
 FRAC_MAX = 0.95
 
 # Tolerance (radians) for "constant" / "integer multiple of 2*pi":  TOL_BASE * (1 + max|k|), k the
-# number of 2*pi wraps removed.  The implementation adds float32(2*pi*k) to the input, so its error
-# is ~ulp32(2*pi*k) + ulp32(|out|) ~ 1.2e-7 * 2*pi*|k| * 2 ~ 1.5e-6 |k|; measured on the pinned tree
-# over 3000 generated cases: max error / (1 + max|k|) = 2.0e-6 (float32), 1.0e-6 (float64 input,
-# offsets are float32 either way).  1e-4 leaves 50x head-room; a wrong answer is off by 2*pi.
+# number of 2*pi wraps removed.  The implementation adds float32(2*pi*k) to the input and subtracts a
+# float32 mean, so its error is ~ulp32(2*pi*k) + ulp32(|out|), about 1e-6*(1+|k|).  Measured on the
+# pinned tree (quick tier, seeds 1, 2, 3, 7, 11, 12, 12345; the worst value is recorded in the evidence
+# as extra.max_err_over_1_plus_k:*): float32 input <= 1.1e-6, float64 input <= 4.1e-7 (offsets are
+# float32 either way), bf route <= 8.7e-7.  1e-4 leaves ~90x head-room; a wrong unwrap is off by 2*pi
+# (6.28), so the head-room hides nothing.
 TOL_BASE = 1e-4
 
 
@@ -58,9 +60,9 @@ def _w():
 def _terms(draw, periodic_bias):
     """1-3 terms; each is normalised to unit largest neighbour step (over the pairs that matter)
     before being weighted by `w`, so no term is numerically drowned by another."""
-    kinds = ["ramp", "quad", "gauss", "band", "cos"]
+    kinds = ["ramp", "ramp", "quad", "quad", "gauss", "gauss", "band", "band", "cos", "white"]
     if periodic_bias:
-        kinds = ["band", "cos", "gauss", "band", "cos", "ramp", "quad"]
+        kinds = ["band", "cos", "gauss", "band", "cos", "ramp", "quad", "white"]
     n = draw(st.integers(1, 3))
     out = []
     for _ in range(n):
@@ -78,6 +80,10 @@ def _terms(draw, periodic_bias):
             t.update(m=draw(st.integers(-3, 3)), n=draw(st.integers(-3, 3)), ph=draw(_f(0, 6.2832)))
             if t["m"] == 0 and t["n"] == 0:
                 t["m"] = 1
+        elif k == "white":
+            # pixel-wise independent noise: still a legal field once rescaled to steps <= 0.95*pi;
+            # it randomises the reliability order, i.e. the order in which regions are merged
+            t.update(seed=draw(st.integers(0, 2**31 - 1)))
         else:
             t.update(seed=draw(st.integers(0, 2**31 - 1)), kmax=draw(st.integers(1, 4)), decay=draw(st.sampled_from([0.0, 1.0, 2.0])))
         out.append(t)
@@ -218,6 +224,7 @@ def _classes(case, B):
         "field_has_wrap" if B["has_wrap"] else "field_no_wrap",
         "kspan:" + ("0" if B["kspan"] == 0 else "1" if B["kspan"] == 1 else "2-4" if B["kspan"] <= 4 else "5+"),
     ]
+    cl += ["field:" + t for t in sorted({t["t"] for t in case["field"]["terms"]})]
     if B["hole"]:
         cl.append("mask_has_hole")
     if min(B["H"], B["W"]) <= 2:
@@ -354,6 +361,9 @@ def check(ctx, case):
         amp = rng.uniform(0.5, 2.0, size=(H, W))
         data = (amp * np.exp(1j * B["truth"])).astype(np.complex64)
         given = np.angle(data).astype(np.float64)
+        grid = np.where(bf, given, 0.0)
+        # the function only unwraps when the embedded phases span more than pi (classification only)
+        ctx.count("bf:unwrap_branch_taken" if grid.max() - grid.min() > math.pi else "bf:phases_span<=pi_returned_as_is")
         kw = {"wrap_around": B["wrap"]} if case["pass_wrap_kw"] else {}
         what = "unwrap_bf_overlap_phase_torch(two_pass=%s%s)" % (case["two_pass"], ", wrap_around=%s" % B["wrap"] if kw else "")
         with ctx.sut(case, what):
@@ -371,7 +381,8 @@ def check(ctx, case):
         out = np.zeros((H, W))
         out[bf] = vec
         err = _judge(case, B, out, given, what, False)
-    ctx.extra["max_err_over_1_plus_k"] = max(ctx.extra.get("max_err_over_1_plus_k", 0.0), err)
+    key = "max_err_over_1_plus_k:" + (case["dtype"] if route == "direct" else "bf")
+    ctx.extra[key] = max(ctx.extra.get(key, 0.0), err)
 
 
 def search(ctx):
